@@ -649,7 +649,10 @@ where
             //= https://www.rfc-editor.org/rfc/rfc9114#section-6.2.3
             //# They MAY also be
             //# sent on connections where no data is currently being transferred.
-            ready!(self.poll_grease_stream(cx));
+            // The frame has already been consumed from the control stream: it must be handed to the
+            // caller even if the (optional) grease stream cannot make progress right now, otherwise
+            // the frame is lost. The grease stream is driven again with the next control frame.
+            let _ = self.poll_grease_stream(cx);
         }
 
         Poll::Ready(Ok(res))
